@@ -76,6 +76,10 @@ MUTS = {
         path = path.rstrip("/")''', '''    if strip_trailing_slash:
         path = path.rstrip("/")''')],
  "R3-new-tracking-key": [(N, '''|fbclid|''', '''|fbclid|zzclid|''')],
+ # after the audit (Props/C05More.lean: documented key families vs the regenerated patterns)
+ "M17-content-key-in-pattern": [(N, '''|fbclid|''', '''|fbclid|page|''')],
+ "M18-utm-family-narrowed": [(N, '''|utm_.+%s|''', '''|utm_source|utm_medium|utm_campaign%s|''')],
+ "R4-utm-star": [(N, '''|utm_.+%s|''', '''|utm_..*%s|''')],
 }
 def sh(cmd, **kw):
     return subprocess.run(cmd, shell=True, stdout=subprocess.PIPE, stderr=subprocess.STDOUT, text=True, **kw)
